@@ -843,7 +843,7 @@ func init() {
 	Register(&Rule{
 		ID:    "R-MEMOKEY",
 		Doc:   "static call graph restricted to the type-compiler functions of each package (functions with a map[reflect.Type]/memo parameter): after removing the functions that look the type up in the memo and return the memoised codec, no cycle remains — otherwise a recursive type that reaches the cycle (type T []T, type M map[string]M) recurses until the stack overflows while its codec is built",
-		Props: []string{"C06", "C03", "C04", "C07", "C12"},
+		Props: []string{"C06", "C03", "C04", "C07", "C12", "C09", "C01"},
 		Min:   map[string]int{"C06": 1, "C03": 1, "C04": 1},
 		Run:   runMemoKey,
 	})
@@ -1037,6 +1037,29 @@ func runMemoKey(c *core.Ctx) []core.Obligation {
 				b.addP(kprops, core.Info, kkey, "-", "no compiler function returns a memo lookup")
 			default:
 				b.addP(kprops, core.Discharged, kkey, "-", fmt.Sprintf("%d memo lookup(s) returned, each keyed by every parameter the function uses", sites))
+			}
+		}
+		// json's process-wide codec cache is keyed by the type alone and holds the codec compiled
+		// for a top-level value of that type (not addressable when it came through Marshal,
+		// addressable through Unmarshal): the type compilers, whose result depends on the
+		// addressability of the component they compile, never answer from it — otherwise the codec of
+		// []T depends on which call saw T first, for the life of the process
+		if spec.pkg == "json" {
+			ckey := key + ":compilers-do-not-read-the-global-cache"
+			bad := ""
+			for _, fn := range nodes {
+				for _, ci := range callsIn(fn) {
+					if g := staticCallee(ci.Common()); g != nil && g.Name() == "cacheLoad" {
+						bad = c.InstrPos(ci) + " (" + shortName(fn) + ")"
+					}
+				}
+			}
+			if c.Lookup("json.cacheLoad") == nil {
+				b.addP([]string{"C09", "C01"}, core.Undecided, ckey, "-", "json.cacheLoad not found")
+			} else if bad != "" {
+				b.addP([]string{"C09", "C01"}, core.Violation, ckey, bad, "a type-compiler function reads the process-wide codec cache at "+bad+": the cache is keyed by the type alone, but the codec of a component depends on whether it is addressable (pointer-receiver MarshalJSON/MarshalText of slice elements, of fields of addressable structs) — the codec compiled for []T then depends on whether Marshal(T{}) or Unmarshal(&T) ran first, and two goroutines racing on first use get different encodings for the life of the process")
+			} else {
+				b.addP([]string{"C09", "C01"}, core.Discharged, ckey, "-", fmt.Sprintf("none of the %d type-compiler functions calls cacheLoad", len(nodes)))
 			}
 		}
 		// the memo is threaded: a compiler function hands its own memo to the compiler functions
